@@ -58,10 +58,14 @@ const (
 	tkFileEscaped
 	tkStdStream // the special names "stdout" and "stderr"
 	tkEmpty     // "": names nothing that can be opened
+	// tkEscapedMissing: a file URL whose (unescaped) path lies in a directory
+	// that does not exist, while a directory spelled like the escaped form
+	// does: exactly the path is tried, so the target cannot be opened
+	tkEscapedMissing
 	nTargetKinds
 )
 
-var c19kindNames = [...]string{"zsim", "zsim-fails", "file-url", "bare-path", "file-localhost", "missing-dir", "is-a-dir", "invalid-url", "unknown-scheme", "upper-case-scheme", "relative-path", "file-upper-case-scheme", "file-escaped-path", "stdout/stderr", "empty-string"}
+var c19kindNames = [...]string{"zsim", "zsim-fails", "file-url", "bare-path", "file-localhost", "missing-dir", "is-a-dir", "invalid-url", "unknown-scheme", "upper-case-scheme", "relative-path", "file-upper-case-scheme", "file-escaped-path", "stdout/stderr", "empty-string", "escaped-path-in-missing-dir"}
 
 var c19badURLs = []string{
 	"file://user:pw@localhost%s",
@@ -101,7 +105,7 @@ type c19sink struct {
 func (w *c19world) target(g *zsim.Stream, f *zsim.Stream) *c19target {
 	w.n++
 	t := &c19target{}
-	t.kind = g.Weighted(5, 2, 3, 2, 1, 1, 1, 2, 1, 1, 1, 1, 1, 1, 1)
+	t.kind = g.Weighted(5, 2, 3, 2, 1, 1, 1, 2, 1, 1, 1, 1, 1, 1, 1, 1)
 	name := fmt.Sprintf("t%d", w.n)
 	switch t.kind {
 	case tkSim, tkSimFail, tkUpperScheme:
@@ -178,6 +182,10 @@ func (w *c19world) target(g *zsim.Stream, f *zsim.Stream) *c19target {
 		// cannot succeed with it
 		t.raw = ""
 		w.c.R.Probe("empty string as a target")
+		w.c.Fault("file-open-error")
+	case tkEscapedMissing:
+		os.Mkdir(filepath.Join(w.dir, name+"%20d"), 0o755) // a directory literally named "…%20d"; "… d" does not exist
+		t.raw = "file://" + filepath.Join(w.dir, name+"%20d", name+".log")
 		w.c.Fault("file-open-error")
 	case tkMissingDir:
 		t.raw = pick(g, "file://", "") + filepath.Join(w.dir, "no-such-dir", name+".log")
